@@ -368,6 +368,11 @@ where
                     .retain(|&unreleased| unreleased != packet_id.get());
                 Self::ack::<PubcompReason>(tx, packet_id).await?
             }
+            // CONNACK and AUTH belong to the connection handshake, the broker
+            // sending them at this point is a protocol error.
+            RxPacket::Connack(_) | RxPacket::Auth(_) => {
+                return Err(CodecError::from(InvalidPacketHeader).into());
+            }
             other => {
                 let action_id = utils::rx_action_id(&other);
 
